@@ -420,6 +420,22 @@ func completenessCase(t *engine.T, key Key, uidLen int) {
 		if h, err := sm2.CalculateSM2Hash(pub, msg, uid); err != nil || !bytes.Equal(h, v.e) {
 			t.Fail("digest/mismatch", "CalculateSM2Hash(uidLen=%d,msgLen=%d) = %x, %v; reference %x", uidLen, ml, h, err, v.e)
 		}
+		// the streaming hasher uses the literal UID (no default substitution), also after Reset
+		if hh, err := sm2.NewHashWithUserID(pub, uid); err != nil {
+			t.Fail("digest/NewHashWithUserID-error", "uidLen=%d: %v", uidLen, err)
+		} else {
+			wantE := c.Digest(uid, key.Pub, msg)
+			hh.Write(msg)
+			d1 := hh.Sum(nil)
+			hh.Reset()
+			hh.Write(msg[:len(msg)/2])
+			hh.Write(msg[len(msg)/2:])
+			d2 := hh.Sum(nil)
+			t.Eval(2)
+			if !bytes.Equal(d1, wantE) || !bytes.Equal(d2, wantE) {
+				t.Fail("digest/NewHashWithUserID-mismatch", "NewHashWithUserID(uidLen=%d) over %d bytes = %x, after Reset %x; reference %x", uidLen, ml, d1, d2, wantE)
+			}
+		}
 		for _, ns := range nonces {
 			r, s, k := refSign(c, g, key.D, v.e, ns.blocks)
 			refSig := ecref.EncodeDERSig(r, s)
